@@ -908,6 +908,30 @@ pub fn oracle_counts(sink: &mut Sink, line: &str, file: &[u8]) {
         let lim = (pc.records.min(100_000) + 50) as usize;
         // item by item, so that a panic after the surplus item does not hide the surplus
         if let Ok(Ok(mut it)) = guarded(|| r.pointcloud_raw(pc)) {
+            let hint = it.size_hint().0 as u64;
+            let mut n = 0u64;
+            let mut ended = false;
+            for _ in 0..lim {
+                match guarded(|| it.next()) {
+                    Ok(Some(Ok(_))) => n += 1,
+                    Ok(Some(Err(_))) => {
+                        ended = true;
+                        break;
+                    }
+                    _ => {
+                        ended = true;
+                        break;
+                    }
+                }
+            }
+            // `Iterator::size_hint`: the lower bound is a promise (`collect()` reserves that many items up front and
+            // panics with "capacity overflow" when the number is absurd)
+            if ended && hint > n {
+                sink.fail("C08", "reader/size-hint-lower-bound-from-record-count", line, &format!("size_hint() promises at least {hint} points (the declared record count), the iterator delivers {n}; collect() on such an iterator reserves {hint} items and panics for huge counts"));
+            }
+            let _ = n;
+        }
+        if let Ok(Ok(mut it)) = guarded(|| r.pointcloud_raw(pc)) {
             let mut n = 0u64;
             for _ in 0..lim {
                 match guarded(|| it.next()) {
@@ -1249,6 +1273,71 @@ pub fn generate(sink: &mut Sink, seed: u64, thorough: bool) {
             continue;
         }
         add_case(sink, &mut rng, &run.file, "norm_stress_file", true);
+    }
+    // 1d. altered file header (C07): the 48 header bytes lie on page 0 like everything else; once they are altered the
+    //     checksum of page 0 no longer matches, and nothing read from that page may reach the caller — opening (and
+    //     raw_xml) must fail, or report exactly what the unaltered file reports.  Sessions that finalize twice leave an
+    //     older XML section in the file, to which an altered header can point.
+    for k in 0..(if thorough { 200 } else { 30 }) {
+        let mut prog = {
+            let mut g = Gen { rng: &mut rng, exts: vec![], n: 0 };
+            g.program(10)
+        };
+        if k % 2 == 0 {
+            // a blob pushes the XML sections off page 0; a second finalize leaves the first XML behind
+            prog.stmts.insert(0, Stmt::Blob(Data::Gen(1500 + (k * 37) % 900, k)));
+            let at = prog.stmts.len() - 1;
+            prog.stmts.insert(at, Stmt::Fin);
+            prog.stmts.insert(at + 1, Stmt::Cm(Some(format!("second session {k}"))));
+        }
+        let run = execute(&prog, &crate::dev::SimDev::new(vec![]));
+        if run.panicked || run.results.last().map(|s| s != "ok").unwrap_or(true) || run.file.len() < 2048 {
+            continue;
+        }
+        let ops = ["META", "XMLH", "RAWXML"];
+        let base = run_ops(&run.file, &ops);
+        if !base.starts_with("OPEN |") {
+            continue;
+        }
+        let mut variants: Vec<(Vec<u8>, String)> = vec![];
+        for _ in 0..3 {
+            let mut f = run.file.clone();
+            let pos = 16 + rng.below(32) as usize;
+            let bit = rng.below(8);
+            f[pos] ^= 1 << bit;
+            variants.push((f, format!("bit {bit} of header byte {pos} flipped")));
+        }
+        // header pointing at an older XML section of the same file
+        let logical: Vec<u8> = run.file.chunks(1024).flat_map(|p| p[..1020].to_vec()).collect();
+        let cur_off = u64::from_le_bytes(run.file[24..32].try_into().unwrap());
+        let starts: Vec<usize> = (0..logical.len().saturating_sub(5)).filter(|&i| &logical[i..i + 5] == b"<?xml").collect();
+        for &st in &starts {
+            let phys = (st + 4 * (st / 1020)) as u64;
+            if phys == cur_off {
+                continue;
+            }
+            if let Some(e) = (st..logical.len().saturating_sub(11)).find(|&i| &logical[i..i + 11] == b"</e57Root>\n") {
+                let mut f = run.file.clone();
+                f[24..32].copy_from_slice(&phys.to_le_bytes());
+                f[32..40].copy_from_slice(&((e + 11 - st) as u64).to_le_bytes());
+                variants.push((f, format!("header XML offset/length pointed at the older XML section at {phys}")));
+            }
+        }
+        for (f, what) in variants {
+            sink.oracle_evals += 1;
+            let got = run_ops(&f, &ops);
+            let line = case_line(&f, &ops.iter().map(|s| s.to_string()).collect::<Vec<_>>());
+            let a: Vec<&str> = base.split(" | ").collect();
+            let b: Vec<&str> = got.split(" | ").collect();
+            // (the header bytes are not re-sealed: page 0 is invalid in every variant)
+            let ok = !got.starts_with("OPEN |") && (b.last().map(|x| *x == "RAWXML err").unwrap_or(false) || b.last() == a.last())
+                || (a.len() == b.len() && a.iter().zip(b.iter()).all(|(x, y)| x == y || y.ends_with(" err")));
+            if !ok {
+                sink.fail("C07", "reader/altered-header-trusted", &line, &format!("{what}: the checksum of page 0 no longer matches, yet the reader answers {} where the unaltered file answers {}", &got[..got.len().min(300)], &base[..base.len().min(300)]));
+            }
+            sink.stat("altered_header_case");
+            sink.case(line, got, true);
+        }
     }
     // 1c. narrow prototypes (C09 count, C05): every record narrower than a byte, so the zero padding that
     //     completes the last byte of each stream decodes as further values — the iterators must stop at the
